@@ -117,6 +117,8 @@ impl Ctx {
             );
             std::process::exit(2);
         }
+        // the calling thread only waits from here on: it must not look stalled to the watchdog
+        guard::heartbeat_done();
         let next = AtomicU64::new(first_end);
         let merged = Mutex::new(a);
         std::thread::scope(|s| {
